@@ -3,12 +3,12 @@
 import json, os, sys
 sys.path.insert(0, os.path.dirname(os.path.abspath(__file__)))
 from props import PROPS
-from manifest_extra import LEVEL_TEXT, NOT_APPLICABLE, HOOK_COMMITS
+from manifest_extra import NOT_APPLICABLE, HOOK_COMMITS
 
 checks = []
 for pid in sorted(PROPS):
     cfg = PROPS[pid]
-    lt = LEVEL_TEXT[pid]
+    lt = {"text": cfg["level_text"], "note": cfg["level_note"], "technique": cfg["technique"]}
     checks.append({
         "property_id": pid,
         "quick_cmd": f"./check {pid} --tier quick",
